@@ -135,30 +135,28 @@ Proof.
   intros _ _. pose proof (create_operand_benign s i) as H. destruct (create_operand s i); cbn in H; try contradiction; eauto.
 Qed.
 
-Theorem parse_line_benign line : benign (parse_line line) \/ exists i s, find_instr i Tables.instructions = Some s /\ Tables.is_string_define s = true /\ parse_line line = Internal E_VALUE.
+(* no text makes the line parser raise an uncaught exception (the string branch reports operand errors as
+   ParseErrors since repair F51) *)
+Theorem parse_line_never_crashes line : benign (parse_line line).
 Proof.
-  unfold parse_line. destruct (mem_c 10 _); [left; exact I|]. destruct (all_c is_space line); [left; exact I|].
-  destruct (hd 0 (lstrip line) =? 59); [left; exact I|].
-  destruct (span is_labelch line) as [label r1]. destruct r1 as [|c1 r1']; [left; exact I|].
-  destruct (negb (is_space c1)); [left; exact I|].
-  destruct (span is_word _) as [mn r3]. destruct r3 as [|c2 r3']; [left; exact I|].
-  destruct (negb (is_space c2)); [left; exact I|].
-  destruct (find_instr (upper_t mn) Tables.instructions) as [i|] eqn:Ef; [|left; exact I].
+  unfold parse_line. destruct (mem_c 10 _); [exact I|]. destruct (all_c is_space line); [exact I|].
+  destruct (hd 0 (lstrip line) =? 59); [exact I|].
+  destruct (span is_labelch line) as [label r1]. destruct r1 as [|c1 r1']; [exact I|].
+  destruct (negb (is_space c1)); [exact I|].
+  destruct (span is_word _) as [mn r3]. destruct r3 as [|c2 r3']; [exact I|].
+  destruct (negb (is_space c2)); [exact I|].
+  destruct (find_instr (upper_t mn) Tables.instructions) as [i|] eqn:Ef; [|exact I].
   destruct (Tables.is_string_define i) eqn:Es.
-  - destruct (rstrip _) as [|d rest]; [left; exact I|]. destruct (find_from d rest 1); [|left; exact I].
+  - destruct (rstrip _) as [|d rest]; [exact I|]. destruct (find_from d rest 1); [|exact I].
     pose proof (create_operand_benign (firstn (S n) (d :: rest)) i) as Hb.
-    destruct (create_operand _ i); cbn in Hb; try contradiction; try (left; exact I).
-    right. exists (upper_t mn), i. auto.
-  - left. destruct (span is_opch _) as [ops rest]. apply benign_bind; [|intros; exact I].
+    destruct (create_operand _ i); cbn in Hb; try contradiction; exact I.
+  - destruct (span is_opch _) as [ops rest]. apply benign_bind; [|intros; exact I].
     pose proof (create_operand_benign ops i) as Hb. unfold as_parse_error. destruct (create_operand ops i); cbn in *; auto.
 Qed.
 
 (* parse_line never runs out of fuel *)
 Lemma parse_line_ff line : fuel_free (parse_line line).
-Proof.
-  destruct (parse_line_benign line) as [H | (i & s & _ & _ & H)]; [now apply benign_ff | rewrite H; discriminate].
-Qed.
-
+Proof. apply benign_ff, parse_line_never_crashes. Qed.
 Lemma parse_lines_ff : forall lines, fuel_free (parse_lines lines).
 Proof.
   induction lines as [|l r IH]; cbn [parse_lines]; [discriminate|].
@@ -242,45 +240,6 @@ Proof.
     - inversion H; reflexivity.
     - cbn [firstn app]. f_equal. now apply IH. }
   rewrite Hs, rev_app_distr. cbn. eauto.
-Qed.
-
-Lemma create_operand_delimited d rest e i :
-  Tables.is_string_define i = true -> strdef_row_ok i = true -> find_from d rest 1 = Some e ->
-  exists o, create_operand (firstn (S e) (d :: rest)) i = Ok o.
-Proof.
-  intros Hs Hrow Hf. unfold strdef_row_ok in Hrow. rewrite Hs in Hrow. cbn [negb orb] in Hrow.
-  repeat (apply andb_true_iff in Hrow as [Hrow ?]).
-  destruct (find_from_spec d rest 1 e Hf) as [Hle Hn].
-  destruct e as [|e']; [lia|]. replace (S e' - 1)%nat with e' in Hn by lia.
-  destruct (rev_firstn_last rest e' d Hn) as [t Ht].
-  unfold create_operand. rewrite Hrow. unfold pseudo_operand.
-  match goal with H : negb (Tables.is_multi_byte i) = true |- _ => apply negb_true_iff in H; rewrite H end.
-  match goal with H : negb (Tables.is_multi_word i) = true |- _ => apply negb_true_iff in H; rewrite H end.
-  match goal with H : negb (Tables.is_include i) = true |- _ => apply negb_true_iff in H; rewrite H end.
-  match goal with H : negb (text_eqb (mnem i) END_t) = true |- _ => apply negb_true_iff in H; rewrite H end.
-  cbn [andb negb orb]. change (firstn (S (S e')) (d :: rest)) with (d :: firstn (S e') rest).
-  unfold create_value, value_of_text. rewrite Hs. rewrite Ht. rewrite N.eqb_refl. cbn [bind].
-  cbn [v_is_numeric]. rewrite andb_false_r. eauto.
-Qed.
-
-Theorem parse_line_never_crashes line : benign (parse_line line).
-Proof.
-  destruct (parse_line_benign line) as [H | (m & i & Hf & Hs & H)]; [exact H|].
-  exfalso. revert H. unfold parse_line.
-  destruct (mem_c 10 _); [discriminate|]. destruct (all_c is_space line); [discriminate|].
-  destruct (hd 0 (lstrip line) =? 59); [discriminate|].
-  destruct (span is_labelch line) as [label r1]. destruct r1 as [|c1 r1']; [discriminate|].
-  destruct (negb (is_space c1)); [discriminate|].
-  destruct (span is_word _) as [mn r3]. destruct r3 as [|c2 r3']; [discriminate|].
-  destruct (negb (is_space c2)); [discriminate|].
-  destruct (find_instr (upper_t mn) Tables.instructions) as [j|] eqn:Ef; [|discriminate].
-  destruct (Tables.is_string_define j) eqn:Esj.
-  - destruct (rstrip _) as [|d rest]; [discriminate|]. destruct (find_from d rest 1) as [e|] eqn:Ee; [|discriminate].
-    assert (Hrow : strdef_row_ok j = true).
-    { pose proof strdef_rows as Hall. rewrite forallb_forall in Hall. apply Hall. eapply find_instr_In; eauto. }
-    destruct (create_operand_delimited d rest e j Esj Hrow Ee) as [o ->]. discriminate.
-  - destruct (span is_opch _) as [ops rest]. unfold as_parse_error.
-    pose proof (create_operand_benign ops j) as Hb. destruct (create_operand ops j); cbn in *; try discriminate; contradiction.
 Qed.
 
 Theorem parse_lines_never_crash : forall lines, benign (parse_lines lines).
